@@ -1,6 +1,6 @@
 (* C15 - extended attributes read back exactly as set: the proved part is the packing of an attribute list
    into its storage area *)
-From E2V Require Import Xattr.XattrPack Xattr.XattrProofs Xattr.XattrSort Xattr.XattrSortProofs.
+From E2V Require Import Xattr.XattrPack Xattr.XattrProofs Xattr.XattrSort Xattr.XattrSortProofs Xattr.XattrSet Xattr.XattrSetProofs.
 Local Open Scope N_scope.
 
 (* whenever the library's own space estimate says the list fits, every entry header lies below the
@@ -54,4 +54,47 @@ Example sort_example :
   insert_key [mkKey 1 [97;97;97]; mkKey 1 [99;99;99]] (mkKey 1 [98;98;98]) = [mkKey 1 [97;97;97]; mkKey 1 [98;98;98]; mkKey 1 [99;99;99]] /\
   sortedb [mkKey 1 [99;99;99]; mkKey 1 [98;98;98]; mkKey 1 [97;97;97]] = false /\
   sorted_lookup [mkKey 1 [99;99;99]; mkKey 1 [98;98;98]; mkKey 1 [97;97;97]] (mkKey 1 [97;97;97]) = false.
+Proof. vm_compute. repeat split; reflexivity. Qed.
+
+(* The attribute handle (ext2fs_xattr_set / xattr_array_update / ext2fs_xattr_remove) as a map: from a state
+   that satisfies the invariant (both areas within their capacity, every name once, block part sorted),
+   a set that is accepted stores exactly that value under that name and leaves every other name alone; a
+   refused set (EXT2_ET_EA_NO_SPACE) returns no new state at all; a remove deletes exactly that name; and the
+   invariant is kept, so the result again fits both storage areas (hypothesis of xattr_write_in_bounds). *)
+Theorem xattr_set_refines_map : forall c s k vid vl s', Inv c s -> xset c s k vid vl = ROk s' ->
+  Inv c s' /\ (exists a, lookup s' k = Some a /\ akey a = k /\ avid a = vid /\ avlen a = vl) /\ (forall k', k' <> k -> lookup s' k' = lookup s k').
+Proof.
+  intros c s k vid vl s' I H. split; [exact (xset_inv c s k vid vl s' I H)|exact (xset_lookup c s k vid vl s' I H)].
+Qed.
+Print Assumptions xattr_set_refines_map.
+
+Theorem xattr_remove_refines_map : forall c s k, Inv c s ->
+  Inv c (xremove s k) /\ lookup (xremove s k) k = None /\ (forall k', k' <> k -> lookup (xremove s k) k' = lookup s k').
+Proof.
+  intros c s k I. split; [exact (xremove_inv c s k I)|exact (xremove_lookup c s k I)].
+Qed.
+Print Assumptions xattr_remove_refines_map.
+
+(* every state reachable from the empty handle by any sequence of set/remove requests fits its two storage areas
+   and keeps the block part sorted *)
+Theorem xattr_reachable_states_fit : forall c ops,
+  let s := fold_left (xstep c) ops (mkH [] []) in
+  fits (map to_xa (ib s)) (ib_cap c + 4) = true /\ fits (map to_xa (bl s)) (blk_cap c + 4) = true /\ sortedb (map akey (bl s)) = true.
+Proof.
+  intros c ops s. pose proof (xsteps_inv c ops _ (inv_empty c)) as I. fold s in I.
+  destruct (inv_fits c s I) as [A B]. split; [exact A|]. split; [exact B|]. apply I.
+Qed.
+Print Assumptions xattr_reachable_states_fit.
+
+(* 256-byte inode (92 bytes of in-inode space), 1k block, ea_inode: a small value goes into the inode, a larger
+   one to the block, growing the first one moves it to the block (sorted before "bbb"), a value above the
+   threshold becomes an EA-inode entry, and a value nothing can hold is refused *)
+Example handle_example :
+  let c := mkCfg 92 988 true 968 in
+  let ka := mkKey 1 [97;97;97] in let kb := mkKey 1 [98;98;98] in
+  let s1 := xstep c (mkH [] []) (OSet ka 7 5) in
+  let s2 := xstep c s1 (OSet kb 9 200) in
+  let s3 := xstep c s2 (OSet ka 8 100) in
+  let s4 := xstep c s3 (OSet kb 10 1000) in
+  map akey (ib s1) = [ka] /\ map akey (bl s2) = [kb] /\ ib s3 = [] /\ map akey (bl s3) = [ka; kb] /\ ib s4 = [mkAt kb 10 1000 true] /\ map akey (bl s4) = [ka] /\ xset (mkCfg 92 988 false 968) s3 kb 11 2000 = RNoSpace.
 Proof. vm_compute. repeat split; reflexivity. Qed.
